@@ -428,6 +428,9 @@ func c18Run(input string) string {
 	if kv["via"] == "engine" {
 		return c18Engine(kv, w)
 	}
+	if kv["via"] == "hookconf" {
+		return c18HookConf(kv, w)
+	}
 	k, _ := strconv.Atoi(kv["k"])
 	reg := plugin.NewRegistry()
 	registered := func() (ok bool) {
@@ -479,6 +482,9 @@ func c18Run(input string) string {
 			}
 		}
 		return strings.Join(views, ",")
+	}
+	if kv["nm"] != "" || kv["pt"] != "" {
+		return w.miss(kv, reg, hook, k)
 	}
 	if kv["hist"] == "1" {
 		// several creations on the one registration, each with its own user settings
@@ -544,6 +550,67 @@ func (w *world) drive(form string, k int, newPlugin func() (interface{}, error),
 	default:
 		panic("form")
 	}
+}
+
+// miss: the registration is (Iface, "x"); the caller asks for another name (nm=) and / or another plugin type (pt=),
+// directly or through the config hooks.  Nothing may run; the result is the lookup error — or, through the hooks, the
+// untouched config data when no plugin at all is registered for the type (the hooks see every interface-typed field).
+func (w *world) miss(kv map[string]string, reg *plugin.Registry, hook bool, k int) string {
+	name := "x"
+	if kv["nm"] != "" {
+		name = kv["nm"]
+	}
+	pt, _ := strconv.Atoi(kv["pt"])
+	plugT := sessTypes[pt]
+	var fillOpt []func(interface{}) error
+	if kv["fill"] == "1" {
+		fillOpt = append(fillOpt, w.fillWith(w.u))
+	}
+	one := func(factory reflect.Type) string {
+		var p interface{}
+		var err error
+		data := map[string]interface{}{"type": name}
+		switch {
+		case hook && factory == nil:
+			p, err = pluginconfig.Hook(reflect.TypeOf(data), plugT, data)
+		case hook:
+			p, err = pluginconfig.FactoryHook(reflect.TypeOf(data), factory, data)
+		case factory == nil:
+			p, err = reg.New(plugT, name, fillOpt...)
+		default:
+			p, err = reg.NewFactory(factory, name, fillOpt...)
+		}
+		res := ""
+		switch {
+		case err != nil && strings.HasPrefix(err.Error(), "no plugins"):
+			res = "noentry"
+		case err != nil:
+			res = "err.other:" + drv.Clean(err.Error())
+		default:
+			if m, ok := p.(map[string]interface{}); ok && reflect.ValueOf(m).Pointer() == reflect.ValueOf(data).Pointer() {
+				res = "pass"
+			} else {
+				res = fmt.Sprintf("created:%T", p)
+			}
+		}
+		w.mu.Lock()
+		evs := strings.Join(w.evs, "|")
+		w.evs = nil
+		w.mu.Unlock()
+		return evs + ">" + res
+	}
+	var steps []string
+	switch kv["form"] {
+	case "c":
+		for i := 0; i < k; i++ {
+			steps = append(steps, w.guarded(func() string { return one(nil) }))
+		}
+	case "f1":
+		steps = append(steps, w.guarded(func() string { return one(reflect.FuncOf(nil, []reflect.Type{plugT}, false)) }))
+	default:
+		steps = append(steps, w.guarded(func() string { return one(reflect.FuncOf(nil, []reflect.Type{plugT, errT}, false)) }))
+	}
+	return "steps=" + strings.Join(steps, ";") + " views="
 }
 
 // userKeys puts the user's settings into a plugin config map; bad: a value the decoder must refuse
@@ -855,6 +922,13 @@ func c18Class(input, obs string) string {
 	if kv["sess"] == "1" {
 		return sessClass(input, obs)
 	}
+	if kv["via"] == "hookconf" {
+		res := drv.KV(obs)["res"]
+		if i := strings.IndexAny(res, ".:"); i > 0 && !strings.HasPrefix(res, "err.parse") {
+			res = res[:i]
+		}
+		return "hookconf-" + kv["dk"] + "-" + res
+	}
 	if kv["hist"] == "1" {
 		c := "hist-" + kv["sh"][:2]
 		if kv["via"] == "hook" {
@@ -878,6 +952,19 @@ func c18Class(input, obs string) string {
 		return "engine-" + kv["sh"][:2] + "-" + res
 	}
 	c := kv["sh"][:2] + "-" + kv["form"]
+	if kv["nm"] != "" || kv["pt"] != "" {
+		c = "miss-" + kv["form"]
+		if kv["via"] == "hook" {
+			c = "hook" + c
+		}
+		switch {
+		case strings.Contains(obs, ">pass"):
+			return c + "-pass"
+		case strings.Contains(obs, ">noentry"):
+			return c + "-noentry"
+		}
+		return c + "-other"
+	}
 	if kv["via"] == "hook" {
 		c = "hook-" + c
 		if kv["bad"] == "1" {
@@ -976,6 +1063,24 @@ func c18Gen(r *rand.Rand, tier string) []string {
 										}
 										out = append(out, s)
 									}
+								}
+								if !refused {
+									for i := 0; i < 2; i++ {
+										out = append(out, hookConfGen(r, fmt.Sprintf("%c%c%c%c%c%c", fa, cfg, ce, fe, ifc, df), byte(cfg)))
+									}
+								}
+								if !refused {
+									// creation for a name / a plugin type nobody registered, directly and through the hooks
+									nm, pt := []string{"x", "y", "X", "xx"}[r.Intn(4)], r.Intn(3)
+									if nm == "x" && pt == 0 {
+										nm = "y"
+									}
+									ms := fmt.Sprintf("sh=%c%c%c%c%c%c form=%s fill=1 d=%s/%s/%s u=_/_/_ k=%d ff= cf= rf= nm=%s pt=%d",
+										fa, cfg, ce, fe, ifc, df, []string{"c", "f1", "f2"}[r.Intn(3)], val(), val(), val(), 1+r.Intn(3), nm, pt)
+									if r.Intn(2) == 0 {
+										ms = "via=hook " + ms
+									}
+									out = append(out, ms)
 								}
 								if !refused {
 									forms := []string{"c", "f1", "f2"}
